@@ -104,6 +104,18 @@ def explore(res, rng, n, areas):
                 continue
             if not (v >= 0):
                 fail(res, 'non-negative', name, args, v)
+            if _ % 10 == 3:
+                # the same numbers as numpy scalars (float32 values are chosen exactly representable)
+                import numpy as np
+                a32 = tuple(float(np.float32(a)) if isinstance(a, float) else a for a in args)
+                try:
+                    v64 = f(*a32)
+                    vnp = f(*[np.float32(a) if isinstance(a, float) else (np.int64(a) if isinstance(a, int) and not isinstance(a, bool) else a) for a in a32])
+                    if not gen.close(float(vnp), float(v64), 1e-4, 1e-30):
+                        fail(res, 'value changes when the arguments are numpy scalars', name, a32, [float(vnp), float(v64)])
+                    res.stat('numpy_scalar_arguments')
+                except Exception as e:  # noqa
+                    fail(res, 'admissible parameters rejected when passed as numpy scalars: ' + type(e).__name__ + ' ' + str(e)[:60], name, a32, None)
     gen.validate(res, 'Wave', [c for c in tv if c[0] in ('piersonMoskowitzSpectrum', 'jonswapSpectrum', 'isscSpectrum',
                                                           'gaussianSwellSpectrum', 'ochiHubbleSpectrum')], rtol=1e-9)
     gen.validate(res, 'Wind', [c for c in tv if c[0] not in ('piersonMoskowitzSpectrum', 'jonswapSpectrum', 'isscSpectrum',
